@@ -9,6 +9,58 @@ from slices import incr
 from props import C02
 
 
+def entry_points(ck, d):
+    """a project imported through non-canonical spellings (sibling `../lib`, a symlink, `./sub/../sub`): its target must be
+    skipped or rebuilt identically whether reached from an importing project or from its own directory"""
+    import os
+    ck.rule('entry points: one library project imported by three projects through `../lib`, a symlinked directory and '
+            '`./x/../../lib`; sequences of invocations from the importing projects and from the library directory itself; the '
+            'library target must run exactly once over an untouched tree, and once more after each edit of its input')
+    n = 3 if ck.tier == 'quick' else 20
+    for it in range(n):
+        r = ck.rng
+        root = os.path.join(d, 'entry%d' % it)
+        lib = os.path.join(root, 'lib')
+        os.makedirs(os.path.join(lib, 'src'))
+        with open(os.path.join(lib, 'src', 'in.txt'), 'w') as f:
+            f.write('v0\n')
+        with open(os.path.join(lib, 'zinoma.yml'), 'w') as f:
+            f.write('name: lib\ntargets:\n  x:\n    input:\n      - paths: [src]\n    output:\n      - paths: [out.txt]\n'
+                    '    build: cat src/in.txt > out.txt && echo ran >> runs.log\n')
+        spellings = {'app1': '../lib', 'app2': 'liblink', 'app3': './x/../../lib'}
+        for app, sp in spellings.items():
+            os.makedirs(os.path.join(root, app, 'x'))
+            if app == 'app2':
+                os.symlink(lib, os.path.join(root, app, 'liblink'))
+            with open(os.path.join(root, app, 'zinoma.yml'), 'w') as f:
+                f.write('imports:\n  lib: %s\ntargets:\n  use:\n    input:\n      - lib::x.output\n    build: cat %s/out.txt > used.txt\n'
+                        % (sp, sp))
+        entries = [('-p', os.path.join(root, a), 'use') for a in spellings] + [('-p', lib, 'x'), ('-p', lib, 'lib::x')]
+        expected = 0
+        seq = []
+        for step in range(r.randint(4, 7)):
+            if step == 0 or r.random() < 0.3:
+                with open(os.path.join(lib, 'src', 'in.txt'), 'w') as f:
+                    f.write('v%d.%d\n' % (it, step))
+                expected += 1
+                seq.append('edit')
+            e = r.choice(entries)
+            rc, out, err = vf.sh([vf.ZINOMA] + list(e), timeout=60, env={'RUST_BACKTRACE': '0'})
+            seq.append(' '.join(x.replace(root, '<root>') for x in e))
+            try:
+                runs = len(open(os.path.join(lib, 'runs.log')).read().splitlines())
+            except FileNotFoundError:
+                runs = 0
+            ck.count(('entry', it, step, tuple(seq)), sample={'sequence': list(seq), 'lib::x runs': runs, 'expected': expected})
+            ck.tally('entry:' + e[2])
+            if rc != 0 or runs != expected:
+                ck.violation({'kind': 'entry-points', 'sequence': list(seq), 'exit': rc, 'stderr_tail': err[-400:],
+                              'what': 'lib::x ran %d times, expected %d: the decision depends on how the target was reached' % (runs, expected),
+                              'replay': 'lib project (target x: input src, output out.txt) imported as ../lib, through a symlink and '
+                                        'as ./x/../../lib; run the listed invocations in order'}, found_input=True)
+                break
+
+
 def run(ck):
     d = vf.scratch_dir('C18')
     quick = ck.tier == 'quick'
@@ -21,6 +73,7 @@ def run(ck):
         if len(h['targets']) > 1:
             hists['m%d' % len(hists)] = h
     incr.check_histories(ck, d, hists, 'm', ('C18',))
+    entry_points(ck, d)
     incr.flush(ck)
     vf.sh(['rm', '-rf', d])
 
